@@ -229,6 +229,10 @@ static_codebook *vorbis_staticbook_unpack(oggpack_buffer *opb){
     /* implicitly populated value mapping */
     /* explicitly populated value mapping */
 
+    /* a value mapping needs at least one dimension; without this the
+       lattice size search and the vector decode loops never finish */
+    if(s->dim<1)goto _errout;
+
     s->q_min=oggpack_read(opb,32);
     s->q_delta=oggpack_read(opb,32);
     s->q_quant=oggpack_read(opb,4)+1;
